@@ -93,6 +93,13 @@ func (ex *Exec) globalPtr(g *ssa.Global) *Pointer {
 		// lazily create zero-valued global; mark package as touched
 		obj = ex.newObject(zero(g.Type().(*types.Pointer).Elem()), "global "+g.String())
 		ex.globals[g] = obj
+		if g.Pkg != nil && g.Pkg.Pkg.Path() == "crypto/rand" && g.Name() == "Reader" {
+			// the ambient entropy source: a never-failing reader of fresh symbolic bytes (its Read is modelled)
+			if tn := g.Pkg.Type("reader"); tn != nil {
+				rt := types.NewPointer(tn.Type())
+				obj.v = Iface{T: rt, V: &Pointer{obj: ex.newObject(zero(tn.Type()), "crypto/rand.reader")}}
+			}
+		}
 		if g.Pkg != nil && !ex.initDone[g.Pkg] {
 			ex.lazyInit(g.Pkg)
 		}
